@@ -5,6 +5,7 @@ package notify
 import (
 	"context"
 	"fmt"
+	"runtime"
 	"sync"
 	"testing"
 	"time"
@@ -93,6 +94,81 @@ func c16NotifyScenario(rep *verifkit.Report, nupdates, nwaiters int, withCancel 
 	return sc
 }
 
+// c16NotifyReuseScenario: the same Notify is used again after a cancelled wait. The waiter's first wait races a cancellation
+// and an update; whatever that wait returned, the waiter then waits again with a context nobody cancels, and only after it
+// has registered for that second wait (under L) the updater makes the final update. A primitive that keeps any book-keeping
+// across waits (waiter counts, cached channels) must still wake the lone second wait.
+func c16NotifyReuseScenario(rep *verifkit.Report, plan string) *verifsched.Scenario {
+	var l sync.Mutex
+	n := New(&l)
+	version, seen, phase2 := 0, 0, false
+	ctxA, cancelA := context.WithCancel(context.Background())
+	ctxB, cancelB := context.WithCancel(context.Background())
+	wit := func(extra map[string]interface{}) map[string]interface{} {
+		w := map[string]interface{}{"scenario": "wait again after a cancelled wait", "plan": plan}
+		for k, v := range extra {
+			w[k] = v
+		}
+		return w
+	}
+	sc := &verifsched.Scenario{Roles: map[string]func(){}, Finite: []string{"updater", "canceller"}}
+	sc.Roles["updater"] = func() {
+		l.Lock()
+		version++
+		n.Broadcast()
+		l.Unlock()
+		for {
+			l.Lock()
+			if phase2 {
+				version++
+				n.Broadcast()
+				l.Unlock()
+				return
+			}
+			l.Unlock()
+			runtime.Gosched()
+		}
+	}
+	sc.Roles["waiter1"] = func() {
+		l.Lock()
+		defer l.Unlock()
+		for seen == version {
+			if ok := n.Wait(ctxA); !ok {
+				break
+			}
+		}
+		seen = version
+		phase2 = true
+		for seen < 2 {
+			for seen == version {
+				if ok := n.Wait(ctxB); !ok {
+					return
+				}
+			}
+			seen = version
+		}
+	}
+	sc.Roles["canceller"] = func() {
+		verifsched.P("c16:canceller:before-cancel#1")
+		cancelA()
+		verifsched.P("c16:canceller:after-cancel#2")
+	}
+	sc.OnDeadlock = func(st map[string]verifsched.GState) {
+		rep.Violate("C16/notify/deadlock", "every participant is blocked and one of them waits for a mutex", wit(map[string]interface{}{"states": c16States(st)}))
+	}
+	sc.AtQuiescence = func(st map[string]verifsched.GState) {
+		if _, parked := st["waiter1"]; parked && seen != version {
+			rep.Violate("C16/notify/missed-update", fmt.Sprintf("the updater has finished (version %d); the waiter, which registered for its second wait before the last update, is parked having seen version %d", version, seen),
+				wit(map[string]interface{}{"states": c16States(st)}))
+		}
+	}
+	sc.Stop = func() { cancelA(); cancelB() }
+	sc.OnStuckAfterStop = func(st map[string]verifsched.GState) {
+		rep.Violate("C16/notify/cancel-does-not-return", "10 s after cancellation a participant has not returned", wit(map[string]interface{}{"states": c16States(st)}))
+	}
+	return sc
+}
+
 func c16States(st map[string]verifsched.GState) map[string]string {
 	out := map[string]string{}
 	for r, g := range st {
@@ -110,7 +186,7 @@ func c16States(st map[string]verifsched.GState) map[string]string {
 func TestVerifC16Notify(t *testing.T) {
 	rep := verifkit.NewReport("C16", "c16-notify")
 	defer rep.Finish(t)
-	rep.Rule = "the Notify primitive on sync-point-instrumented source, used as its clients use it (state change + Broadcast under L, waiters re-check under L): 1-3 updates, 1-2 waiters, optional cancellation; un-perturbed, profile jitter, EVERY pair plan between roles, seeded jitter; " +
+	rep.Rule = "the Notify primitive on sync-point-instrumented source, used as its clients use it (state change + Broadcast under L, waiters re-check under L): 1-3 updates, 1-2 waiters, optional cancellation, and a waiter that waits again (uncancelled) after a first wait that raced a cancellation and an update; un-perturbed, profile jitter, EVERY pair plan between roles, seeded jitter; " +
 		"oracles: deadlock detector, missed-update detector at quiescence (guarded version vs. last version seen by a parked waiter), cancellation negative. distinct = (scenario, plan)"
 	type cfg struct {
 		u, w int
@@ -138,6 +214,25 @@ func TestVerifC16Notify(t *testing.T) {
 		if rep.ViolationCount() > 12 {
 			break
 		}
+	}
+	// a Notify that is waited on again after a cancelled wait (the select between "woken" and "cancelled" is decided by
+	// the runtime at random when both are ready: the exploration is repeated)
+	for rnd := 0; rnd < verifkit.Pick(4, 16) && rep.ViolationCount() <= 12; rnd++ {
+		st := verifsched.Explore(func(plan string) *verifsched.Scenario { return c16NotifyReuseScenario(rep, plan) },
+			8, verifkit.Pick(10, 60), uint64(verifkit.Seed())*31+uint64(rnd), 20*time.Millisecond, verifkit.Pick(250, 0),
+			func(plan string, realised bool, r verifsched.RunResult) {
+				rep.Eval(1)
+				if realised || plan == "off" {
+					rep.Distinct(fmt.Sprintf("reuse-after-cancel/%d/%s", rnd, plan))
+				}
+				if r.Watchdog {
+					rep.Inconclusivef("watchdog in reuse-after-cancel under %s", plan)
+				}
+			})
+		total.Runs += st.Runs
+		total.PairPlans += st.PairPlans
+		total.PairPlansRealised += st.PairPlansRealised
+		total.Points += st.Points
 	}
 	rep.Count("runs", total.Runs)
 	rep.Count("pair_plans", total.PairPlans)
